@@ -597,19 +597,28 @@ impl<'a> GeneralCheck<'a> {
         if let Some(Regex::Alternation(alt)) = rule.regex(cst) {
             for alt_op in alt.operands(cst) {
                 if let Regex::Concat(concat) = alt_op {
-                    let mut concat_ops = concat.operands(cst).enumerate().filter(|(_, op)| {
-                        !matches!(
-                            op,
-                            Regex::Predicate(_)
-                                | Regex::NodeRename(_)
-                                | Regex::NodeElision(_)
-                                | Regex::Action(_)
-                        )
-                    });
+                    let mut concat_ops = concat
+                        .operands(cst)
+                        .enumerate()
+                        .filter(|(_, op)| {
+                            !matches!(
+                                op,
+                                Regex::Predicate(_)
+                                    | Regex::NodeRename(_)
+                                    | Regex::NodeElision(_)
+                                    | Regex::Action(_)
+                            )
+                        })
+                        .peekable();
 
                     let check_rec =
                         |(i, op)| self.name_references_rule(cst, sema, rule, op).then_some(i);
                     let left_rec = concat_ops.next().and_then(check_rec);
+                    if left_rec.is_some() && concat_ops.peek().is_none() {
+                        // nothing but the rule itself: the branch would recurse forever
+                        diags.push(Diagnostic::consume_tokens(&alt_op.span(cst)));
+                        continue;
+                    }
                     let right_rec = concat_ops.last().and_then(check_rec);
 
                     if left_rec.is_some()
